@@ -69,7 +69,7 @@ class Inliner:
         self.kept_sites = {}        # helper key -> number of direct calls left in place
 
     # -- which calls are inlined ------------------------------------------------------------------------
-    def _target(self, f, t):
+    def _target(self, f, t, blocks=None):
         """(callee key, 'fn' | 'closure') if the call terminator t is to be inlined"""
         c = t.get("callee")
         if not c:
@@ -81,6 +81,12 @@ class Inliner:
         if c["path"] in FN_TRAIT_CALLS and r.get("local") and r.get("path") in self.prog.fns \
                 and self.prog.fns[r["path"]].kind == "Closure" and len(t["args"]) == 2:
             return r["path"], "closure"
+        if c["path"] in FN_TRAIT_CALLS and len(t["args"]) == 2 and blocks is not None:
+            # a generic `F: FnOnce(..)` parameter of an inlined callee: rustc could not resolve the call inside the generic
+            # body, but here the value called is a closure built in this very function
+            ck = _closure_of_operand(blocks, t["args"][0])
+            if ck and ck in self.prog.fns and self.prog.fns[ck].kind == "Closure":
+                return ck, "closure"
         return None
 
     def body(self, key):
@@ -96,7 +102,7 @@ class Inliner:
             while i < len(blocks) and len(blocks) < MAX_BLOCKS:
                 b = blocks[i]
                 t = b["term"]
-                tgt = self._target(f, t) if (t["k"] == "call" and not b["cleanup"]) else None
+                tgt = self._target(f, t, blocks) if (t["k"] == "call" and not b["cleanup"]) else None
                 if tgt and tgt[0] not in self.stack and self.prog.fns[tgt[0]].d.get("blocks"):
                     self._inline_at(f, locals_, blocks, i, tgt)
                     self.inlined_sites[tgt[0]] = self.inlined_sites.get(tgt[0], 0) + 1
@@ -155,14 +161,21 @@ class Inliner:
                 st.append({"k": "assign", "dst": {"l": lb + 1 + ai, "p": []}, "rv": _use(a), "line": line, "exp": False,
                            "inl_arg": key})
         else:
-            st.append({"k": "assign", "dst": {"l": lb + 1, "p": []}, "rv": _use(args[0]), "line": line, "exp": False,
+            env_ty = (cl[1].get("ty") or "") if len(cl) > 1 else ""
+            a0 = args[0]
+            if env_ty.startswith("&") and a0["k"] in ("copy", "move") and not _operand_is_ref(locals_, a0):
+                # an Fn / FnMut closure body takes `&self`; called through FnOnce::call_once it is handed the value
+                rv0 = {"k": "ref", "mut": env_ty.startswith("&mut"), "fake": False, "place": copy.deepcopy(a0["place"])}
+            else:
+                rv0 = _use(a0)
+            st.append({"k": "assign", "dst": {"l": lb + 1, "p": []}, "rv": rv0, "line": line, "exp": False,
                        "inl_arg": key})
             tup = args[1]
             n = callee.arg_count - 1
             for ai in range(n):
                 if tup["k"] in ("move", "copy"):
                     pl = copy.deepcopy(tup["place"])
-                    pl["p"].append(["field", ai])
+                    pl["p"].append(["field", ai, str(ai)])
                     op = {"k": tup["k"], "place": pl}
                 else:
                     op = tup
@@ -170,6 +183,36 @@ class Inliner:
                            "inl_arg": key})
         blocks[bi]["term"] = {"k": "goto", "target": bb, "line": line, "exp": False, "inl_call": key}
         blocks.extend(cb)
+
+
+def _operand_is_ref(locals_, op):
+    p = op["place"]
+    return not p["p"] and (locals_[p["l"]].get("ty") or "").startswith("&")
+
+
+def _closure_of_operand(blocks, op, depth=0):
+    """key of the closure whose value the operand holds, following plain moves / borrows of locals assigned once"""
+    if op["k"] not in ("copy", "move") or op["place"]["p"] or depth > 8:
+        return None
+    l = op["place"]["l"]
+    defs = []
+    for b in blocks:
+        for s in b["stmts"]:
+            if s["k"] == "assign" and s["dst"]["l"] == l and not s["dst"]["p"]:
+                defs.append(s["rv"])
+        t = b["term"]
+        if t["k"] == "call" and t["dest"]["l"] == l and not t["dest"]["p"]:
+            defs.append(None)
+    if len(defs) != 1 or defs[0] is None:
+        return None
+    rv = defs[0]
+    if rv["k"] == "aggr" and rv.get("kind") == "closure":
+        return rv["closure"]
+    if rv["k"] == "use":
+        return _closure_of_operand(blocks, rv["op"], depth + 1)
+    if rv["k"] == "ref" and not rv["place"]["p"]:
+        return _closure_of_operand(blocks, {"k": "copy", "place": rv["place"]}, depth + 1)
+    return None
 
 
 def inline_program(prog):
